@@ -116,8 +116,10 @@ func (d *Driver) Keys(s string) {
 }
 
 func (d *Driver) Resize(w, h int) {
-	d.guard("SetWidthHeight", func() { d.S.SetWidthHeight(w, h) })
+	// the terminal has this size from now on: frames drawn by the call itself are already
+	// frames for the new size
 	d.Width, d.Height = w, h
+	d.guard("SetWidthHeight", func() { d.S.SetWidthHeight(w, h) })
 }
 
 // Settle waits until every goroutine started by servitor has finished.
